@@ -84,6 +84,10 @@ def _site_variants(toks, base, data, lines, spans):
     for j in range(nlines + 1):
         for ins in INSERT_LINES:
             yield 'insert-line:' + repr(ins), '\n'.join(lines[:j] + [ins] + lines[j:])
+    # a blank / comment-only last line that is not newline-terminated (end of input inside the indentation logic)
+    for ins in INSERT_LINES:
+        if ins:
+            yield 'unterminated-last-line:' + repr(ins), base + ins
     for j in range(nlines):
         for end in LINE_ENDS:
             yield 'line-end:' + repr(end), '\n'.join(lines[:j] + [lines[j] + end] + lines[j + 1:])
